@@ -230,8 +230,16 @@ class IfWriteHandler(AbstractWriteHandler):
                 elif next_vertex_ends:
                     # VERY IMPORTANT: If we already wrote this somewhere else, we NEED to write an else regardless,
                     # because we WON'T be printing it's opcodes next otherwise!
+                    # The same holds if the label ends this elseif but not the if that the chain belongs to: the text
+                    # goes on at the end label of that if, not here.
                     eop = else_edge.target_vertex["op"]
-                    if isinstance(eop, SsbLabel) and eop.id in self.decompiler.labels_already_printed:
+                    outer_m = self.start_vertex["op"].get_marker()
+                    ends_outer_if = isinstance(eop, SsbLabel) and any(
+                        isinstance(mx, IfEnd) and outer_m.if_id == mx.if_id for mx in eop.markers
+                    )
+                    if isinstance(eop, SsbLabel) and (
+                        eop.id in self.decompiler.labels_already_printed or not ends_outer_if
+                    ):
                         return else_edge
                     else:
                         return None
